@@ -51,6 +51,34 @@ def check_apply(rec, name, O, doc, desc, step, via):
     return res.doc
 
 
+def malformed_variants(steps, doc, rnd, n):
+    """the generated steps with their position fields permuted / pushed out of range"""
+    import copy as _copy
+
+    size = doc.content.size
+    out = []
+    cands = [s for s in steps if hasattr(s[1], "from_") or hasattr(s[1], "pos")]
+    rnd.shuffle(cands)
+    for desc, step in cands[:n]:
+        st = _copy.copy(step)
+        fields = [a for a in ("from_", "to", "gap_from", "gap_to", "pos") if hasattr(st, a)]
+        kind = rnd.choice(["swap", "shuffle", "out"])
+        vals = [getattr(st, a) for a in fields]
+        if kind == "swap" and len(fields) >= 2:
+            vals[0], vals[1] = max(vals[0], vals[1]), min(vals[0], vals[1])
+            if vals[0] == vals[1]:
+                vals[0] = min(size, vals[0] + 1 + rnd.randint(0, 3))
+        elif kind == "shuffle":
+            rnd.shuffle(vals)
+        else:
+            i = rnd.randrange(len(vals))
+            vals[i] = rnd.choice([-1, size + 1, size + 3])
+        for a, v in zip(fields, vals):
+            setattr(st, a, v)
+        out.append((f"malformed({kind}) {desc}", st))
+    return out
+
+
 def run(tier, seed, findings):
     rec = Recorder("C01")
     rnd = random.Random(seed)
@@ -60,6 +88,15 @@ def run(tier, seed, findings):
         pool = [s for s in D.slice_pool(name, docs, rnd, 40 if tier == "quick" else 120)]
         for doc in docs:
             steps = ops.primitive_steps(name, doc, pool, rnd, 60 if tier == "quick" else 250)
+            # positions a peer may send: out of range or out of order (end before start, gap outside the
+            # range).  Such a step must be refused cleanly -- a failed result or a ValueError -- or, if the
+            # library accepts it, still yield a valid document; never an internal error.
+            for desc, step in malformed_variants(steps, doc, rnd, 25 if tier == "quick" else 120):
+                if not ops.step_payload_ok_loose(name, doc, step):
+                    continue
+                sj = step_desc(step)
+                rec.case(("apply-malformed", name, orc.canon_json(D.doc_json(doc)), orc.canon_json(sj)), sample=dict(schema=name, doc=str(doc), step=desc))
+                check_apply(rec, name, O, doc, sj, step, "malformed-positions")
             for desc, step in steps:
                 if not ops.step_positions_ok(doc, step) or not ops.step_payload_ok(name, doc, step):
                     rec.count("skipped (payload or positions outside the property's quantifier)")
